@@ -90,12 +90,19 @@ def build(start, hist):
         for ev in hist:
             s.sides = ev
         return s
+    M = NFFT + int(start.get('extra_len') or 0)       # complex data: a record (and initial NFFT) longer than the PSD assigned afterwards
     if dt == 'real':
-        data = np.arange(1.0, NFFT + 1.0)
+        data = np.arange(1.0, M + 1.0)
     else:
-        data = np.arange(1.0, NFFT + 1.0) * (1 + 1j)
-    s = Spectrum(data, NFFT=NFFT)
-    s.psd = np.array(v0, dtype=float)
+        data = np.arange(1.0, M + 1.0) * (1 + 1j)
+    s = Spectrum(data, NFFT=M)
+    store = start.get('store')
+    if store == 'intlist':
+        s.psd = [int(v) for v in v0]                  # integer-valued PSD given as a list of Python ints
+    elif store == 'int64':
+        s.psd = np.array(v0, dtype=np.int64)
+    else:
+        s.psd = np.array(v0, dtype=float)
     for ev in hist:
         s.sides = ev
     return s
@@ -111,8 +118,16 @@ def run_shard(desc, R, tier):
     if desc[0] == 'bfs':
         _, dt, NFFT, depth = desc
         L = len(rs.bins(default_sides(dt), NFFT))
-        for v0 in vectors(L):
-            start = {'dtype': dt, 'NFFT': NFFT, 'v0': v0}
+        starts = [{'dtype': dt, 'NFFT': NFFT, 'v0': v0} for v0 in vectors(L)]
+        vs = vectors(L)
+        for v0 in (vs[0], vs[L + 1], vs[-1]):
+            # the same PSD stored as integers (list / int64 array); for complex data also assigned over a longer record
+            starts.append({'dtype': dt, 'NFFT': NFFT, 'v0': v0, 'store': 'intlist'})
+            starts.append({'dtype': dt, 'NFFT': NFFT, 'v0': v0, 'store': 'int64'})
+            if dt == 'complex':
+                starts.append({'dtype': dt, 'NFFT': NFFT, 'v0': v0, 'extra_len': 3})
+        for start in starts:
+            v0 = start['v0']
             st = bfs.explore(start, menu, build, depth, R,
                              on_state=lambda s, h: check_state(s, h, R),
                              on_exception=lambda s, h, e: on_exc(s, h, e, R))
@@ -139,6 +154,12 @@ def run_shard(desc, R, tier):
         for v in vectors(L):
             for name in ('twosided_2_centerdc', 'centerdc_2_twosided', 'onesided_2_twosided', 'twosided_2_onesided'):
                 eval_point({'kind': 'helper', 'name': name, 'v': v}, R)
+        for v in (vectors(L)[0], vectors(L)[L + 1], vectors(L)[-1]):
+            for flag in ('bool', 'np.bool_', 'int'):
+                for container in ('float', 'int64', 'intlist'):
+                    eval_point({'kind': 'helper_odd', 'v': v, 'flag': flag, 'container': container}, R)
+            for container in ('int64', 'intlist'):
+                eval_point({'kind': 'helper', 'name': 'onesided_2_twosided', 'v': v, 'container': container}, R)
         base = 100.0 + np.arange(L)
         for off in list(range(-L - 1, L + 2)) + [float(L // 2), L / 2.0]:
             eval_point({'kind': 'cshift', 'v': base, 'offset': off}, R)
@@ -156,18 +177,24 @@ def run_shard(desc, R, tier):
 
 def _feats(start, hist, **kw):
     f = {'dtype': start['dtype'], 'nfft': 'odd' if start['NFFT'] % 2 else 'even'}
+    if start.get('store'):
+        f['store'] = 'int'
+    if start.get('extra_len'):
+        f['assigned_over'] = 'longer record'
     f.update(kw)
     return f
 
 
 def on_exc(start, hist, e, R):
-    pt = {'kind': 'bfs', 'dtype': start['dtype'], 'NFFT': start['NFFT'], 'v0': start['v0'], 'history': list(hist), 'cls': start.get('cls')}
+    pt = {'kind': 'bfs', 'dtype': start['dtype'], 'NFFT': start['NFFT'], 'v0': start['v0'], 'history': list(hist), 'cls': start.get('cls'),
+          'store': start.get('store'), 'extra_len': start.get('extra_len')}
     R.viol('no_exception', _feats(start, hist, to=hist[-1], exc=type(e).__name__), pt, repr(e), None,
            'assigning sides raised')
 
 
 def check_state(start, hist, R):
-    pt = {'kind': 'bfs', 'dtype': start['dtype'], 'NFFT': start['NFFT'], 'v0': start['v0'], 'history': list(hist), 'cls': start.get('cls')}
+    pt = {'kind': 'bfs', 'dtype': start['dtype'], 'NFFT': start['NFFT'], 'v0': start['v0'], 'history': list(hist), 'cls': start.get('cls'),
+          'store': start.get('store'), 'extra_len': start.get('extra_len')}
     eval_point(pt, R)
 
 
@@ -178,7 +205,8 @@ def _vars_snapshot(obj):
 def eval_point(pt, R):
     kind = pt['kind']
     if kind == 'bfs':
-        start = {'dtype': pt['dtype'], 'NFFT': int(pt['NFFT']), 'v0': np.asarray(pt['v0'], dtype=float), 'cls': pt.get('cls')}
+        start = {'dtype': pt['dtype'], 'NFFT': int(pt['NFFT']), 'v0': np.asarray(pt['v0'], dtype=float), 'cls': pt.get('cls'),
+                 'store': pt.get('store'), 'extra_len': pt.get('extra_len')}
         hist = tuple(pt['history'])
         NFFT = start['NFFT']
         dflt = default_sides(start['dtype'])
@@ -250,14 +278,47 @@ def eval_point(pt, R):
             inp, exp = rs.convert(v, 'onesided', 'twosided', NFFT), v
         feats = {'helper': name, 'len': 'odd' if len(inp) % 2 else 'even'}
         R.calls()
+        arg = inp.copy()
+        if pt.get('container') == 'int64':
+            arg = inp.astype(np.int64)
+            feats['container'] = 'int'
+        elif pt.get('container') == 'intlist':
+            arg = [int(t) for t in inp]
+            feats['container'] = 'int'
         try:
-            got = np.asarray(getattr(tools, name)(inp.copy()), dtype=float)
+            got = np.asarray(getattr(tools, name)(arg), dtype=float)
         except Exception as e:
             R.viol('helper', dict(feats, exc=type(e).__name__), pt, repr(e), exp, 'helper raised on its domain')
             return
         R.check(close(got, exp, ULP4, 0.0), 'helper', feats, pt, got, exp,
                 'tools.%s does not carry values to the entry with the same frequency' % name, outs=(got, name),
                 err=relerr(got, exp), model_ctx={'inp': inp})
+    elif kind == 'helper_odd':
+        # one-sided PSD of an odd NFFT (no Nyquist entry): documented flag odd=True, given as bool / numpy.bool_ / 1
+        from spectrum import tools
+        v = np.asarray(pt['v'], dtype=float)
+        L = len(v)
+        NFFT = 2 * L - 1
+        exp = rs.convert(v, 'onesided', 'twosided', NFFT)
+        flag = {'bool': True, 'np.bool_': np.bool_(True), 'int': 1}[pt['flag']]
+        arg = {'float': v.copy(), 'int64': v.astype(np.int64), 'intlist': [int(t) for t in v]}[pt['container']]
+        feats = {'helper': 'onesided_2_twosided', 'odd': pt['flag'], 'container': 'float' if pt['container'] == 'float' else 'int'}
+        R.point(pt)
+        R.calls()
+        try:
+            got = np.asarray(tools.onesided_2_twosided(arg, odd=flag), dtype=float)
+        except Exception as e:
+            R.viol('helper', dict(feats, exc=type(e).__name__), pt, repr(e), exp, 'helper raised on its domain')
+            return
+        R.check(close(got, exp, ULP4, 0.0), 'helper', feats, pt, got, exp,
+                'tools.onesided_2_twosided(odd=True) does not split every non-DC value equally between +f and -f on the 2L-1 grid', outs=(got, 'odd'))
+        R.calls()
+        try:
+            back = np.asarray(tools.twosided_2_onesided(np.asarray(exp)), dtype=float)
+            R.check(close(back, v, ULP4, 0.0), 'helper', dict(feats, helper='twosided_2_onesided', odd='len'), pt, back, v,
+                    'tools.twosided_2_onesided on an odd-length two-sided PSD does not fold -f onto +f')
+        except Exception as e:
+            R.viol('helper', dict(feats, helper='twosided_2_onesided', exc=type(e).__name__), pt, repr(e), v, 'helper raised on its domain')
     elif kind == 'cshift':
         from spectrum import tools
         v = np.asarray(pt['v'], dtype=float)
